@@ -755,7 +755,11 @@ class Histogram:
         self.systematic_error_ = np.sqrt(
             np.average(self.systematic_error_**2.0, axis=0, weights=weights)
         ).reshape(1, -1)
-        self.histogram_raw_count_ = np.sum(self.histograms_raw_count_, axis=0)
+        self.histograms_raw_count_ = np.sum(
+            self.histograms_raw_count_, axis=0
+        ).reshape(1, -1)
+        # attribute name of earlier versions, kept for backward compatibility
+        self.histogram_raw_count_ = self.histograms_raw_count_[0]
         self.scaling_ = np.asarray(self.scaling_[0])
 
         if self.scaling_.ndim == 1:
@@ -826,7 +830,11 @@ class Histogram:
         self.systematic_error_ = np.sqrt(
             np.average(self.systematic_error_**2.0, axis=0, weights=weights)
         ).reshape(1, -1)
-        self.histogram_raw_count_ = np.sum(self.histograms_raw_count_, axis=0)
+        self.histograms_raw_count_ = np.sum(
+            self.histograms_raw_count_, axis=0
+        ).reshape(1, -1)
+        # attribute name of earlier versions, kept for backward compatibility
+        self.histogram_raw_count_ = self.histograms_raw_count_[0]
         self.scaling_ = np.asarray(self.scaling_[0])
 
         if self.scaling_.ndim == 1:
